@@ -124,10 +124,10 @@ def native_half(ctx):
         for c, (p, npart) in zip(seq, res):
             ctx.case(("r",) + tuple(c[:3]) + (hash(tuple(c[3])),), len(set(c[3])) > 1)
             const = len(set(c[3])) == 1
-            bad = (const and (any(p) or npart != 0)) or (not const and (min(p) < 1 or max(p) != npart))
+            bad = (const and (set(p) != {1} or npart != 1)) or (not const and (min(p) < 1 or max(p) != npart))
             if bad:
                 ctx.violation({"where": "native", "kind": "labels-out-of-range", "shape": list(c[:2]), "ihmax": c[2]},
-                              "label map not in 1..npart (or non-zero for a constant spectrum)", {"case": c[:3], "npart": npart})
+                              "label map not in 1..npart (or not the single partition of a constant spectrum)", {"case": c[:3], "npart": npart})
     # sampled traces (<= 12x12) from an interleaved sequence, validated step by step
     tcases = []
     for c in seq:
